@@ -131,8 +131,9 @@ bool OPNMIDIplay::LoadBank(FileAndMemReader &fr)
     {
         for(size_t i = 0; i < slots_counts[ss]; i++)
         {
-            size_t bankno = (slots_src_ins[ss][i].bank_midi_msb * 256) +
-                            (slots_src_ins[ss][i].bank_midi_lsb) +
+            // MIDI bank numbers have 7 bits: a set high bit must not reach the percussion tag or an unreachable key
+            size_t bankno = ((slots_src_ins[ss][i].bank_midi_msb & 0x7F) * 256) +
+                            (slots_src_ins[ss][i].bank_midi_lsb & 0x7F) +
                             (ss ? size_t(Synth::PercussionTag) : 0);
             Synth::Bank &bank = synth.m_insBanks[bankno];
             for(int j = 0; j < 128; j++)
